@@ -1,11 +1,271 @@
 """C18 widened instances beyond the TLC alphabet of Storage.tla, judged by the same laws (ParRT, GrainRT, GrainH5RT):
    * parameter dictionaries with integers that are not binary64 values (|v| > 2^53), large/small floats, strings
-   * grain lists longer than ten (HDF5 group names "0".."N" must come back in list order)"""
-import os
+   * grain lists longer than ten (HDF5 group names "0".."N" must come back in list order), every third
+     grain with an intensity_info line (its neighbours' names / peak counts must not move)
+   * hand-edited / half-written text columnfiles (anchor "readfile: header parsing, ragged last row"): a file
+     written by writefile, then a trailing blank line, no final newline, a last row cut after k tokens,
+     blank lines in the header.  Expectation = this harness's own parser on the complete rows.
+   * default arguments and options of the hdf writers: colfile_to_hdf(name=None) (group = base name of
+     c.filename), first argument = file name, compression lzf / gzip incl. overwriting in place;
+     colfileobj_to_hdf(name=None) for cf.filename None / relative / absolute, read back with
+     colfile_from_hdf(file) (finding C18-colfileobj-default-name-nested, see hdf_default_names)
+Every family counts its cases in chk.notes["extra_families"]."""
+import os, math, random
+from fractions import Fraction
 import numpy as np
+
+FINDING_NESTED = "C18-colfileobj-default-name-nested"
+
+
+def _note(chk, family, n=1):
+    d = chk.notes.setdefault("extra_families", {})
+    d[family] = d.get(family, 0) + n
+
+
+def _obs(chk, text):
+    o = chk.notes.setdefault("observations", [])
+    if text not in o:
+        o.append(text)
+
+
+def _rand_table(rng, W, nrows):
+    """titles: one pinned title of every class and one unknown name, in random order; values: any double"""
+    titles = [rng.choice(W.CLASS_TITLES[c]) for c in ("f4", "f0", "f12", "e4", "f6")]
+    rng.shuffle(titles)
+    titles = titles[:rng.randrange(2, 6)]
+    cols = {}
+    for t in titles:
+        c = W.CLASS_OF[t]
+        cols[t] = [W.any_int_valued(rng) if c == "f0" else W.any_double(rng, c) for _ in range(nrows)]
+    return titles, cols
+
+
+def _same_value(a, b):
+    a, b = float(a), float(b)
+    return a == b and math.copysign(1.0, a) == math.copysign(1.0, b)
+
+
+def text_edits(chk, scratch, seed, probs):
+    from ImageD11 import columnfile
+    import c18_replay as R
+    import c18_widen as W
+    rng = random.Random(seed * 7919 + 18)
+    for trial in range(6):
+        nrows = (2, 3, 5, 2, 7, 4)[trial]
+        titles, cols = _rand_table(rng, W, nrows)
+        cf = columnfile.colfile_from_dict({t: np.array(cols[t], float) for t in titles})
+        cf.parameters.set("a", "b = c")
+        cf.parameters.set("wavelength", 0.25)
+        path = os.path.join(scratch, "edit_%d.flt" % trial)
+        cf.writefile(path)
+        base = R.parse_colfile_text(path)               # independent reading of what was written
+        if base.get("titles") != titles or "cols" not in base:
+            probs.append(("writefile: titles %s written as %s" % (titles, base.get("titles")), {"extra": "text-edits"}))
+            continue
+        with open(path) as f:
+            text = f.read()
+        lines = text.splitlines(True)
+        nhead = len([l for l in lines if l.startswith("#")])
+        last = lines[-1].split()
+        edits = [("a trailing blank line", text + "\n", nrows),
+                 ("a trailing line of blanks", text + "   \n", nrows),
+                 ("no final newline", text.rstrip("\n"), nrows),
+                 ("blank lines in the header", "\n" + lines[0] + "  \n" + "".join(lines[1:nhead]) + "\n" + "".join(lines[nhead:]), nrows)]
+        for k in sorted(set([1, len(titles) - 1])):
+            cut = "".join(lines[:-1]) + "  " + "  ".join(last[:len(last) - k])
+            edits.append(("last row cut after %d of %d tokens" % (len(last) - k, len(last)), cut + "\n", nrows - 1))
+            edits.append(("last row cut after %d of %d tokens, no newline" % (len(last) - k, len(last)), cut, nrows - 1))
+        for name, body, nexp in edits:
+            q = os.path.join(scratch, "edit_%d_x.flt" % trial)
+            with open(q, "w") as f:
+                f.write(body)
+            _note(chk, "text-edits")
+            chk.case(("extra-text-edit", trial, name))
+            chk.traces += 1
+            case = {"extra": "text-edits", "edit": name, "file": body}
+            try:
+                c = columnfile.columnfile(q)
+            except Exception as e:
+                probs.append(("readfile of a written columnfile with %s raised %s: %s" % (name, type(e).__name__, e), case))
+                continue
+            if list(c.titles) != titles or c.nrows != nexp:
+                probs.append(("readfile of a written columnfile with %s: titles %s, %d rows; expected %s, %d rows (the complete rows)" % (
+                    name, list(c.titles), c.nrows, titles, nexp), case))
+                continue
+            bad = [(t, i) for t in titles for i in range(nexp) if float(c.getcolumn(t)[i]) != float(base["cols"][t][i])]
+            if bad:
+                t, i = bad[0]
+                probs.append(("readfile of a written columnfile with %s: column %s row %d read as %r, the file says %s" % (
+                    name, t, i, float(c.getcolumn(t)[i]), base["cols"][t][i]), case))
+            for n, (cls, v) in base["pars"].items():
+                got = c.parameters.parameters.get(n)
+                if R.pytype(got) != ({"I": "int", "F": "float", "S": "str"}[cls], v):
+                    probs.append(("readfile of a written columnfile with %s: header parameter %s = %r read as %r" % (name, n, v, got), case))
+        # not writer output, not judged: two blank lines at the end
+        q = os.path.join(scratch, "edit_%d_y.flt" % trial)
+        with open(q, "w") as f:
+            f.write(text + "\n\n")
+        try:
+            c = columnfile.columnfile(q)
+            if c.nrows != nrows:
+                _obs(chk, "readfile: a written file followed by TWO blank lines reads n+1 rows for n (the extra row is "
+                          "uninitialised memory: columnfile.py:332-341 only drops one short last line); hand edited "
+                          "input, outside the statement, not judged")
+        except Exception as e:
+            _obs(chk, "readfile: two trailing blank lines raise %s (not judged)" % type(e).__name__)
+
+
+def _table_of(c):
+    return {t: np.array(c.getcolumn(t)) for t in c.titles}
+
+
+def _cmp_table(exp, got, ints, what, probs, case):
+    """exp: {title: ndarray} of the written object; got: columnfile read back.  Set of titles, values exactly
+    (sign of zero included), int64 for the pinned INTS holding integral values"""
+    if sorted(exp) != sorted(got.titles):
+        probs.append(("%s: titles %s read back as %s" % (what, sorted(exp), sorted(got.titles)), case))
+        return False
+    for t, a in exp.items():
+        b = np.asarray(got.getcolumn(t))
+        if len(a) != len(b):
+            probs.append(("%s: column %s has %d rows, written %d" % (what, t, len(b), len(a)), case))
+            return False
+        isint = t in ints and all(float(v) == int(v) for v in a)
+        if isint and b.dtype.kind not in "iu":
+            probs.append(("%s: integer typed column %s read back with dtype %s" % (what, t, b.dtype), case))
+            return False
+        if t in ints and not isint:
+            continue                      # non integral values in an integer typed column: no demand
+        for i in range(len(a)):
+            ok = (int(a[i]) == int(b[i])) if isint else _same_value(a[i], b[i])
+            if not ok:
+                probs.append(("%s: column %s row %d written %r read back %r" % (what, t, i, a[i], b[i]), case))
+                return False
+    return True
+
+
+def hdf_default_names(chk, scratch, seed, probs):
+    from ImageD11 import columnfile
+    import h5py
+    import c18_widen as W
+    rng = random.Random(seed * 104729 + 18)
+    ints = set(W.PINNED_INTS)
+    nested = []
+    for trial in range(4):
+        titles, cols = _rand_table(rng, W, 3)
+        src = columnfile.colfile_from_dict({t: np.array(cols[t], float) for t in titles})
+        tpath = os.path.join(scratch, "names_%d.flt" % trial)
+        src.writefile(tpath)
+        c = columnfile.columnfile(tpath)                # c.filename = absolute path of the text file
+        exp = _table_of(c)
+
+        def fresh(tag):
+            h = os.path.join(scratch, "names_%d_%s.h5" % (trial, tag))
+            if os.path.exists(h):
+                os.unlink(h)
+            return h
+        # --- colfile_to_hdf: default name = base name of c.filename; first argument a file name
+        for tag, first in (("obj", c), ("fname", tpath)):
+            h = fresh(tag)
+            case = {"extra": "hdf-default-names", "call": "colfile_to_hdf(%s, h5) (name=None)" % ("cf" if tag == "obj" else "'file.flt'")}
+            _note(chk, "hdf-default-name colfile_to_hdf")
+            chk.case(("extra-hdf-name", trial, tag))
+            chk.traces += 1
+            try:
+                columnfile.colfile_to_hdf(first, h)
+                with h5py.File(h, "r") as hh:
+                    groups = list(hh)
+                if groups != [os.path.basename(tpath)]:
+                    probs.append(("%s: groups %s, expected the base name %s" % (case["call"], groups, os.path.basename(tpath)), case))
+                _cmp_table(exp, columnfile.colfile_from_hdf(h), ints, case["call"] + " ; colfile_from_hdf(h5)", probs, case)
+                _cmp_table(exp, columnfile.columnfile(h), ints, case["call"] + " ; columnfile(h5)", probs, case)
+            except Exception as e:
+                probs.append(("%s raised %s: %s" % (case["call"], type(e).__name__, e), case))
+        # --- compression options: write, read, overwrite in place (same length), read
+        for comp, opts in (("lzf", None), ("gzip", 4)):
+            h = fresh(comp)
+            case = {"extra": "hdf-compression", "call": "colfile_to_hdf(cf, h5, name='peaks', compression=%r, compression_opts=%r)" % (comp, opts)}
+            _note(chk, "hdf-compression")
+            chk.case(("extra-hdf-compression", trial, comp))
+            chk.traces += 1
+            try:
+                columnfile.colfile_to_hdf(c, h, name="peaks", compression=comp, compression_opts=opts)
+                _cmp_table(exp, columnfile.colfile_from_hdf(h, name="peaks"), ints, case["call"], probs, case)
+                c2 = c.copy()
+                for t in c2.titles:
+                    c2.getcolumn(t)[:] = -c2.getcolumn(t)[::-1]
+                columnfile.colfile_to_hdf(c2, h, name="peaks", compression=comp, compression_opts=opts)
+                _cmp_table(_table_of(c2), columnfile.colfile_from_hdf(h), ints, case["call"] + " twice (overwrite, same length)", probs, case)
+            except Exception as e:
+                probs.append(("%s raised %s: %s" % (case["call"], type(e).__name__, e), case))
+        # --- colfileobj_to_hdf: default name = str(cf.filename)
+        for tag, fname in (("none", None), ("rel", "names_%d.flt" % trial), ("abs", tpath)):
+            h = fresh("o" + tag)
+            c3 = c.copy()
+            c3.filename = fname
+            case = {"extra": "hdf-default-names", "call": "colfileobj_to_hdf(cf, h5) (name=None), cf.filename = %r" % (
+                fname if tag != "abs" else "/abs/dir/" + os.path.basename(tpath))}
+            _note(chk, "hdf-default-name colfileobj_to_hdf")
+            chk.case(("extra-hdfobj-name", trial, tag))
+            chk.traces += 1
+            try:
+                columnfile.colfileobj_to_hdf(c3, h)
+            except Exception as e:
+                probs.append(("%s raised %s: %s" % (case["call"], type(e).__name__, e), case))
+                continue
+            try:
+                back = columnfile.colfile_from_hdf(h)
+            except (Exception, AssertionError) as e:
+                # the writer succeeded and the default reader does not find the table.  Explained (finding) only if
+                # the group sits at the nested path that "/" in the name creates and holds exactly what was written
+                why = None
+                try:
+                    with h5py.File(h, "r") as hh:
+                        parts = [x for x in str(fname).split("/") if x]
+                        if len(parts) > 1 and list(hh) == [parts[0]] and "/".join(parts) in hh:
+                            g = hh["/".join(parts)]
+                            tag_ok = g.attrs.get("ImageD11_type") in ("peaks", b"peaks")
+                            exact = sorted(g) == sorted(exp) and all(
+                                g[t].dtype == (np.int64 if t in ints else np.float64)
+                                and len(g[t]) == len(exp[t])
+                                and all((int(x) == int(y)) if t in ints else _same_value(x, y)
+                                        for x, y in zip(exp[t], g[t][:]) if not (t in ints and float(x) != int(x)))
+                                for t in exp)
+                            if tag_ok and exact:
+                                why = "group created as nested groups %s" % "/".join(["<dir>"] * (len(parts) - 1) + [parts[-1]])
+                except Exception:
+                    why = None
+                what = "%s ; colfile_from_hdf(h5) raised %s: the written table cannot be read back" % (case["call"], type(e).__name__)
+                if why is not None:
+                    nested.append((what + " (%s)" % why, case))
+                else:
+                    probs.append((what, case))
+                continue
+            _cmp_table(exp, back, ints, case["call"] + " ; colfile_from_hdf(h5)", probs, case)
+    if nested:
+        if chk.finding(FINDING_NESTED) is not None:
+            chk.known_finding(FINDING_NESTED, "colfileobj_to_hdf(cf, file) with the default name and a cf.filename containing '/' creates "
+                                              "nested groups; colfile_from_hdf cannot find the table")
+            chk.known[FINDING_NESTED][0] = len(nested)
+        else:
+            probs.append(nested[0])
 
 
 def run_extra(chk, scratch, seed):
+    probs = list(run_extra_pars_grains(chk, scratch, seed))
+    text_edits(chk, scratch, seed, probs)
+    hdf_default_names(chk, scratch, seed, probs)        # (last: may end with the recorded / pending finding)
+    # one VIOLATION per class (family, kind of edit / call): the first instance is the reproducer
+    seen, out = set(), []
+    for what, case in probs:
+        key = (case.get("extra"), "".join(ch for ch in str(case.get("edit") or case.get("call") or case.get("route") or "") if not ch.isdigit()))
+        if key not in seen:
+            seen.add(key)
+            out.append((what, case))
+    return out
+
+
+def run_extra_pars_grains(chk, scratch, seed):
     from ImageD11 import parameters, grain, columnfile
     rng = np.random.default_rng(seed + 1818)
     probs = []
@@ -16,7 +276,7 @@ def run_extra(chk, scratch, seed):
         for k in range(8):
             d["ipar_%d" % k] = int(big[(trial + k) % len(big)]) + int(rng.integers(0, 3)) * (1 if k % 2 else 0)
         d.update({"fpar_a": 0.1, "fpar_b": -2.5e-12, "fpar_c": 3.0e12 + 0.5, "fpar_d": 1.0 / 3.0,
-                  "spar_a": "abc", "spar_b": "x1y2", "spar_c": "F"})
+                  "spar_a": "abc", "spar_b": "x1y2", "spar_c": "F", "spar_d": "", "spar_e": "0x1F", "spar_f": "1.5.2"})
         path = os.path.join(scratch, "extra_%d.par" % trial)
         p = parameters.parameters(**d)
         p.saveparameters(path)
@@ -42,6 +302,7 @@ def run_extra(chk, scratch, seed):
                               {"extra": "flt header"}))
         chk.case(("extra-pars", trial))
         chk.traces += 1
+        _note(chk, "parameters beyond 2^53")
     # ---- grain lists: same order, UBI / translation / names / peak counts (GrainRT text, GrainH5RT hdf)
     for n in (1, 3, 10, 11, 12, 25, 120):
         gl = []
@@ -53,6 +314,8 @@ def run_extra(chk, scratch, seed):
             g.name = "g%d:sim.flt" % k
             g.npks = 100 + k
             g.nuniq = 50 + k
+            if k % 3 == 1:
+                g.intensity_info = "sum_of_all = %.3f , middle %d = %g" % (1000.0 + k, k, 0.5 * k)
             gl.append(g)
         tp = os.path.join(scratch, "extra_%d.map" % n)
         hp = os.path.join(scratch, "extra_%d.h5" % n)
@@ -69,11 +332,14 @@ def run_extra(chk, scratch, seed):
             for k, (a, b) in enumerate(zip(gl, back)):
                 okubi = np.array_equal(a.ubi, b.ubi) if exact else np.allclose(a.ubi, b.ubi, rtol=5e-9, atol=0)
                 okt = np.array_equal(a.translation, b.translation) if exact else np.allclose(a.translation, b.translation, rtol=5e-6, atol=0)
-                okn = str(b.name).strip() == a.name and int(b.npks) == a.npks
+                okn = str(b.name).strip() == a.name and int(b.npks) == a.npks and int(b.nuniq) == a.nuniq
+                ia, ib = getattr(a, "intensity_info", None), getattr(b, "intensity_info", None)
+                okn = okn and ((ia is None and ib is None) or (ib is not None and ia == str(ib).rstrip()))
                 if not (okubi and okt and okn):
                     probs.append(("%s grain file with %d grains: position %d reads back a different grain (name %r, written %r)" % (
                         route, n, k, str(getattr(b, "name", None)).strip(), a.name), {"extra": "grains", "n": n, "route": route}))
                     break
         chk.case(("extra-grains", n))
         chk.traces += 1
+        _note(chk, "grain lists (every third grain with intensity_info)")
     return probs
